@@ -341,8 +341,12 @@ def _infer_set_inner(
                 pointer = schema.get_by_id(
                     ptr.ptrref.id, type=s_pointers.Pointer
                 )
-                if pointer.is_exclusive(schema):
-                    # Got an exclusive constraint
+                if (
+                    pointer.is_exclusive(schema)
+                    and not src_mult.is_duplicate()
+                ):
+                    # Got an exclusive constraint, and no source
+                    # object is visited twice
                     path_mult = UNIQUE
                 else:
                     path_mult = DUPLICATE
